@@ -77,6 +77,9 @@ func (f *VFile) WriteAt(p []byte, off int64) (int, error) {
 		f.sto.OnWrite(false)
 		defer f.sto.OnWrite(true)
 	}
+	return f.writeAt(p, off)
+}
+func (f *VFile) writeAt(p []byte, off int64) (int, error) {
 	f.mu.Lock()
 	defer f.mu.Unlock()
 	if off+int64(len(p)) > int64(len(f.B)) {
@@ -98,7 +101,43 @@ func (f *VFile) Close() error {
 	return nil
 }
 
+// vHandle is one open of a file: with StrictHandles the storage behaves like os.File, reads and
+// writes through a handle that was closed fail with os.ErrClosed.
+type vHandle struct {
+	f      *VFile
+	closed bool
+}
+
+func (h *vHandle) isClosed() bool {
+	h.f.mu.Lock()
+	defer h.f.mu.Unlock()
+	return h.closed
+}
+func (h *vHandle) ReadAt(p []byte, off int64) (int, error) {
+	if h.isClosed() {
+		return 0, os.ErrClosed
+	}
+	return h.f.ReadAt(p, off)
+}
+func (h *vHandle) WriteAt(p []byte, off int64) (int, error) {
+	if h.f.sto != nil && h.f.sto.OnWrite != nil {
+		h.f.sto.OnWrite(false)
+		defer h.f.sto.OnWrite(true)
+	}
+	if h.isClosed() {
+		return 0, os.ErrClosed
+	}
+	return h.f.writeAt(p, off)
+}
+func (h *vHandle) Close() error {
+	h.f.mu.Lock()
+	h.closed = true
+	h.f.mu.Unlock()
+	return h.f.Close()
+}
+
 type VStorage struct {
+	StrictHandles bool // Open returns a fresh handle each time; a closed handle refuses reads and writes
 	mu       sync.Mutex
 	Files    map[string]*VFile
 	Writes   []VWrite
@@ -120,10 +159,16 @@ func (s *VStorage) Open(name string, size int64) (storage.File, bool, error) {
 			copy(nb, f.B)
 			f.B = nb
 		}
+		if s.StrictHandles {
+			return &vHandle{f: f}, true, nil
+		}
 		return f, true, nil
 	}
 	f := &VFile{mu: &s.mu, B: make([]byte, size), log: &s.Writes, name: name, sto: s}
 	s.Files[name] = f
+	if s.StrictHandles {
+		return &vHandle{f: f}, false, nil
+	}
 	return f, false, nil
 }
 func (s *VStorage) RootDir() string { return "/vstorage" }
@@ -365,6 +410,7 @@ type VLoopOpts struct {
 	Sequential  bool
 	Tune        func(*Config)
 	Preload     map[string][]byte
+	StrictHandles bool // storage handles behave like os.File after Close
 }
 
 // freeTCPPort hands out a port for a session's single torrent.  Concurrently running harness processes
@@ -439,6 +485,7 @@ func NewVLoop(o VLoopOpts) (*VLoop, error) {
 	cfg.Host = "127.0.0.1"
 	cfg.TrackerStopTimeout = time.Second
 	sto := NewVStorage()
+	sto.StrictHandles = o.StrictHandles
 	for n, b := range o.Preload {
 		sto.Preload(n, b)
 	}
